@@ -63,6 +63,13 @@ Theorem C11_overlong_rejected : forall o p v,
 Proof. exact overlong_rejected. Qed.
 Print Assumptions C11_overlong_rejected.
 
+(* ... and for whole values: Encode answers "too long" only if some component of the value (at any
+   nesting depth, in any interface, struct field, slice, array or map) is over-long *)
+Theorem C11_rejects_unrepresentable_value : forall o t v,
+  encode o t v = Err ETooLong -> has_overlong (o_fuel o) o t v = true.
+Proof. exact rejects_unrepresentable. Qed.
+Print Assumptions C11_rejects_unrepresentable_value.
+
 (* the length check of decodeString as it was before 622a4d5 (sum computed in uint16) rejected
    the encoder's output for 65534 and 65535 byte strings; the repaired check accepts them *)
 Theorem C11_string_wrap_before_fix : forall s r,
